@@ -36,11 +36,13 @@ TIERS = {
     "quick": {"shards": 4, "cases": 2500, "timeout": 300},
     "thorough": {"shards": 16, "cases": 30000, "timeout": 3000},
 }
-FLOORS = {"quick": {"queries_through_a_method_caller": 70, "queries_whose_records_are_plain_tuples": 65, "queries_whose_select_text_holds_a_question_mark": 180, "tables_over_repeated_column_names": 20,
+FLOORS = {"quick": {"keyword_filters_on_a_column_with_two_underscores": 300,
+                    "queries_through_a_method_caller": 70, "queries_whose_records_are_plain_tuples": 65, "queries_whose_select_text_holds_a_question_mark": 180, "tables_over_repeated_column_names": 20,
                     "distinct_nontrivial": 1500, "queries_checked": 9000, "non_empty_results": 1800,
                     "bound_values_checked": 8000, "percent_s_queries": 1000, "one_row_semantics_checked": 1500,
                     "hostile_strings_bound": 800},
-          "thorough": {"queries_through_a_method_caller": 280, "queries_whose_records_are_plain_tuples": 270, "queries_whose_select_text_holds_a_question_mark": 740, "tables_over_repeated_column_names": 80,
+          "thorough": {"keyword_filters_on_a_column_with_two_underscores": 1200,
+                       "queries_through_a_method_caller": 280, "queries_whose_records_are_plain_tuples": 270, "queries_whose_select_text_holds_a_question_mark": 740, "tables_over_repeated_column_names": 80,
                        "distinct_nontrivial": 70000, "queries_checked": 450000, "non_empty_results": 90000,
                        "bound_values_checked": 400000, "percent_s_queries": 50000,
                        "one_row_semantics_checked": 70000, "hostile_strings_bound": 40000}}
